@@ -29,7 +29,7 @@ MaxOf(a, b)    == IF a >= b THEN a ELSE b
 MinOf(a, b)    == IF a <= b THEN a ELSE b
 RECURSIVE SumF(_, _)
 SumF(f, S) == IF S = {} THEN 0 ELSE LET x == CHOOSE x \in S : TRUE IN f[x] + SumF(f, S \ {x})
-AnySeq(S) == CHOOSE q \in [1..Cardinality(S) -> S] : \A i, j \in 1..Cardinality(S) : i # j => q[i] # q[j]
+AnySeq(S) == SetToSeq(S)    \* SequencesExt: some fixed enumeration of S
 RangeOf(q) == {q[i] : i \in DOMAIN q}
 
 \* Fee for a transaction shape, in units (fee base = 1 unit)
@@ -62,6 +62,7 @@ EmptyWallet(accts) ==
     idx    |-> [a \in accts |-> [child |-> 0, log |-> 0, confh |-> 0]],
     files  |-> <<>>,     \* slate-> "part" | "final"   (saved_txs/<uuid>.grintx)
     active |-> "a0",
+    labels |-> [default |-> "a0"],   \* account label -> account path
     scanned |-> 0 ]      \* height of the last scanned block
 
 \* ------------------------------------------------------------------- chain
@@ -203,7 +204,8 @@ Refresh1(s, w, a, all) ==
 \* `chg` (sequence of change values) are arguments.  Selection.tla holds the
 \* exact algorithm and the contract.
 \* ======================================================================
-AcctOf(s, w, name) == IF name \in AllAccts(s, w) THEN name ELSE s.w[w].active
+\* an unknown label silently means the active account (transcribed)
+AcctOf(s, w, name) == IF name \in DOMAIN s.w[w].labels THEN s.w[w].labels[name] ELSE s.w[w].active
 
 \* sequence of states produced by bumping the child index n times
 RECURSIVE BumpSteps(_, _, _)
@@ -522,12 +524,14 @@ BuildCoinbase(s, w, a) ==
 \* ---------------------------------------------------------------------
 \* Accounts
 \* ---------------------------------------------------------------------
-CreateAccount(s, w, a) ==   \* a.name must be the next account id, chosen by the caller
-  IF a.name \in AllAccts(s, w) THEN [steps |-> <<>>, res |-> "exists"]
-  ELSE [steps |-> <<[s EXCEPT !.w[w].idx = Put(@, a.name, [child |-> 0, log |-> 0, confh |-> 0])]>>, res |-> "ok"]
+\* a.label: new label; a.name: the account path it gets (max existing + 1, chosen by the caller)
+CreateAccount(s, w, a) ==
+  IF a.label \in DOMAIN s.w[w].labels THEN [steps |-> <<>>, res |-> "exists"]
+  ELSE [steps |-> <<[s EXCEPT !.w[w].idx = Put(@, a.name, [child |-> 0, log |-> 0, confh |-> 0]),
+                              !.w[w].labels = Put(@, a.label, a.name)]>>, res |-> "ok"]
 SetActive(s, w, a) ==
-  IF a.name \notin AllAccts(s, w) THEN [steps |-> <<>>, res |-> "unknown"]
-  ELSE [steps |-> <<[s EXCEPT !.w[w].active = a.name]>>, res |-> "ok"]
+  IF a.label \notin DOMAIN s.w[w].labels THEN [steps |-> <<>>, res |-> "unknown"]
+  ELSE [steps |-> <<[s EXCEPT !.w[w].active = s.w[w].labels[a.label]]>>, res |-> "ok"]
 
 \* ---------------------------------------------------------------------
 \* Environment: node and chain
